@@ -83,3 +83,23 @@ claim("C35",
       "one piece of work less - or re-runs it in place; waiter timeouts and routing only ever emit start commands.",
       "Whole-stream balance over a run (RUNNING ... NOT_RUNNING pairing across ticks) follows from these per-tick facts "
       "plus the trusted runner; 'InputRequiredEvent published exactly once' is not stated as a clause yet.")
+
+claim("C06",
+      "Contracts written from the property statement on each wait strategy (__call__) and on the composed policy: the "
+      "k-th retry (k = the 1-based failure count the reducer passes, proved at the reducer: failures = attempts+1, "
+      "handed unchanged through _ComposableRetryPolicy.next) must use strategy k of wait_chain, multiplier*exp_base^(k-1) "
+      "for wait_exponential and start+increment*(k-1) for wait_incrementing. These three clauses are refuted on the "
+      "unchanged tree (recorded known findings, each confirmed natively); everything else is discharged.",
+      "Known findings are an API decision (every local repair contradicts the package's own unit tests of w(0)); "
+      "float arithmetic is modelled over the reals.",
+      category="other")
+
+claim("C07",
+      "retry_any/all, stop_any/all and wait_combine are proved equal to the or / and / sum of their parts for every "
+      "tuple of parts; every built-in wait is proved to return a value within its documented bounds under its parameter "
+      "precondition; the float power exp_base**attempts is a range obligation (CPython raises OverflowError), handled "
+      "by the code since fix 1ad9831; jittered waits depend only on (seed, bounds) through the assumed contract of "
+      "random.Random(seed).uniform.",
+      "floats are mathematical reals except for the explicit power-range obligation; random.uniform(a,b) in [a,b] and "
+      "determinism of Random(seed) are assumed library contracts; the | & + dunder methods and __init__ conversions "
+      "are not separately under contract.")
